@@ -63,6 +63,8 @@ def _run_unit(job):
         case = u.cases[case_i]
         out["unit"] = u.unit_name(case)
         out["kind"] = type(u).__mro__[1].__name__ if hasattr(u, "target") else "Lemma"
+        ag = getattr(u, "alt_group", None)
+        out["alt_group"] = ag(case) if callable(ag) else ag
         out["target"] = getattr(u, "target", "")
         for k in STATS:
             STATS[k] = 0
@@ -140,6 +142,20 @@ def main(argv=None):
                     for r in bad[:12]:
                         print(f"     {r['status']:9s} {r['label']}  {r['detail'][:200]} model={json.dumps(r['model'], default=str)[:300] if r['model'] else None}")
     outs.sort(key=lambda o: o["unit"] or "")
+    # alternatives: units in one alt_group state the same property clause for different admissible designs (e.g. the
+    # enumeration order of a bijection); the group holds if one alternative is fully proved, the others are dropped
+    groups = {}
+    for o in outs:
+        if o.get("alt_group"):
+            groups.setdefault(o["alt_group"], []).append(o)
+    dropped_alts = []
+    for gname, members in groups.items():
+        good = [o for o in members if not o["error"] and o["results"] and all(r["status"] == "proved" for r in o["results"])]
+        keep = good[0] if good else members[0]
+        for o in members:
+            if o is not keep:
+                outs.remove(o)
+                dropped_alts.append(o["unit"])
     # bounded stand-ins (native / small-n); run in this process
     bounded = []
     for b in getattr(mod, "BOUNDED", []):
